@@ -1,13 +1,15 @@
 (* C18 — overlapping requests: the cache invariant over interleaved segments.
 
-   J s: every cached entry is older than the cache age and equals what the store answers now; every query suspended after its
-   driver call that still holds the port's live cache dict carries, for the timestamps it is going to cache, the answers the
-   store gives now; a value change suspended before its insert is stamped with the current time.
-   J is preserved by every event of a schedule that satisfies [sched_ok]:
-     * the clock is not advanced while a request is suspended, and
-     * when the removal of a DELETE runs, the port's cache is (still) empty and no suspended query holds the port's live
-       dict — which is the case when the removal follows the invalidation without a suspension in between
-       ([start_then_driver_clean]); History/C18Race.v shows what happens otherwise. *)
+   While a DELETE of port p is suspended in the driver, the port's cache may hold (in the dict created after the first
+   invalidation) an answer computed before the removal took effect; the second invalidation, when the DELETE resumes, throws
+   that dict away.  So the invariant exempts the ports that have a DELETE in flight:
+   J s: every cached entry is older than the cache age and — unless a DELETE of its port is in flight — equals what the
+   store answers now; every query suspended after its driver call that still holds the port's live dict carries — unless a
+   DELETE of its port is in flight — the answers the store gives now for the timestamps it is going to cache; a value change
+   suspended before its insert is stamped with the current time.
+   J is preserved by every event of a schedule that satisfies [sched_ok]: the clock is not advanced while a request is
+   suspended, and a request starts under an identifier that is not in flight.  No condition on DELETE any more (before
+   6506e34 the removal had to follow the invalidation without suspension: History/C18Race.v). *)
 From QT Require Import C18.Spec C18.SortThm C18.ApiThm C18.CacheThm C18.Interleave.
 Open Scope Z_scope.
 
@@ -91,13 +93,16 @@ Qed.
 (* ---------------------------------------------------------------------------------------------------------- *)
 (* the invariant *)
 
+Definition pending_del (s : istate) (p : Z) : Prop :=
+  exists id from to a, fly_get (i_fly s) id = Some (FDelete p from to a).
+
 Definition flight_ok (cfg : config) (s : istate) (f : flight) : Prop :=
   match f with
   | FByTs p k tss results missed now gen samples =>
       port_kind cfg p = Some k /\ now <= st_now (i_st s) /\ gen <= gen_of (i_gens s) p /\
       match samples with
       | Some smp =>
-          gen = gen_of (i_gens s) p ->
+          gen = gen_of (i_gens s) p -> ~ pending_del s p ->
           forall t v, In (t, v) (combine missed (map (adapt_opt k) smp)) -> now - t > cfg_min_age cfg ->
                       v = fresh_val (st_store (i_st s)) p k t
       | None => True
@@ -106,20 +111,18 @@ Definition flight_ok (cfg : config) (s : istate) (f : flight) : Prop :=
   | _ => True
   end.
 
-Definition J (cfg : config) (s : istate) : Prop :=
-  cache_ok cfg (i_st s) /\ forall id f, fly_get (i_fly s) id = Some f -> flight_ok cfg s f.
+Definition cache_ok' (cfg : config) (s : istate) : Prop :=
+  forall p t v, cache_get (st_cache (i_st s)) p t = Some v ->
+    t + cfg_min_age cfg < st_now (i_st s)
+    /\ exists k, port_kind cfg p = Some k /\ (~ pending_del s p -> v = fresh_val (st_store (i_st s)) p k t).
 
-Definition port_clean (s : istate) (p : Z) : Prop :=
-  (forall t, cache_get (st_cache (i_st s)) p t = None)
-  /\ (forall id k tss r m n g smp, fly_get (i_fly s) id = Some (FByTs p k tss r m n g smp) -> g <> gen_of (i_gens s) p).
+Definition J (cfg : config) (s : istate) : Prop :=
+  cache_ok' cfg s /\ forall id f, fly_get (i_fly s) id = Some f -> flight_ok cfg s f.
 
 Definition event_ok (s : istate) (e : ievent) : Prop :=
   match e with
   | ISeq (AdvanceClock _) | IStart _ (AdvanceClock _) => i_fly s = []
-  | IDriver id => match fly_get (i_fly s) id with
-                  | Some (FDelete p _ _ false) => port_clean s p
-                  | _ => True
-                  end
+  | IStart id _ => fly_get (i_fly s) id = None
   | _ => True
   end.
 
@@ -129,43 +132,11 @@ Fixpoint sched_ok (cfg : config) (s : istate) (es : list ievent) : Prop :=
   | e :: rest => event_ok s e /\ sched_ok cfg (fst (istep cfg s e)) rest
   end.
 
-(* how a flight fares when the state around it changes *)
-Lemma flight_ok_same : forall cfg s s' f,
-  st_store (i_st s') = st_store (i_st s) -> st_now (i_st s') = st_now (i_st s) -> i_gens s' = i_gens s ->
-  flight_ok cfg s f -> flight_ok cfg s' f.
+Lemma pending_set_fresh : forall s id f p fl,
+  fly_get (i_fly s) id = None -> i_fly fl = fly_set (i_fly s) id f -> pending_del s p -> pending_del fl p.
 Proof.
-  intros cfg s s' f E1 E2 E3 H. destruct f as [p k tss r m n g smp| | |p n v a]; cbn [flight_ok] in *; try exact I.
-  - rewrite E1, E2, E3. exact H.
-  - rewrite E2. exact H.
-Qed.
-
-(* a sample recorded at the current time does not disturb any flight *)
-Lemma flight_ok_record : forall cfg s s' f p v,
-  0 <= cfg_min_age cfg ->
-  st_store (i_st s') = record_spec (st_store (i_st s)) p (st_now (i_st s)) v ->
-  st_now (i_st s') = st_now (i_st s) -> i_gens s' = i_gens s ->
-  flight_ok cfg s f -> flight_ok cfg s' f.
-Proof.
-  intros cfg s s' f p v AGE E1 E2 E3 H. destruct f as [p' k tss r m n g smp| | |p' n v' a]; cbn [flight_ok] in *; try exact I.
-  - rewrite E1, E2, E3. destruct H as [PK [NW [GL SM]]]. repeat split; try assumption.
-    destruct smp as [smp|]; [|exact I]. intros G t w In1 Old. rewrite fresh_val_record by lia. apply SM; assumption.
-  - rewrite E2. exact H.
-Qed.
-
-(* the port's dict is popped (generation bumped) and possibly its samples removed: flights of that port go stale, the
-   others do not see the difference *)
-Lemma flight_ok_pop : forall cfg s s' f p from to,
-  (st_store (i_st s') = st_store (i_st s) \/ st_store (i_st s') = delete_spec (st_store (i_st s)) p from to) ->
-  st_now (i_st s') = st_now (i_st s) -> i_gens s' = gen_bump (i_gens s) p ->
-  flight_ok cfg s f -> flight_ok cfg s' f.
-Proof.
-  intros cfg s s' f p from to E1 E2 E3 H. destruct f as [p' k tss r m n g smp| | |p' n v' a]; cbn [flight_ok] in *; try exact I.
-  - rewrite E2, E3, gen_of_bump. destruct H as [PK [NW [GL SM]]]. split; [assumption|]. split; [assumption|].
-    destruct (p =? p') eqn:E.
-    + apply Z.eqb_eq in E. subst p'. split; [lia|]. destruct smp as [smp|]; [|exact I]. intros G. lia.
-    + apply Z.eqb_neq in E. split; [assumption|]. destruct smp as [smp|]; [|exact I]. intros G t w In1 Old.
-      destruct E1 as [->| ->]; [|rewrite fresh_val_delete_other by assumption]; apply SM; assumption.
-  - rewrite E2. exact H.
+  intros s id f p fl FR E [id' [from [to [a H]]]]. exists id', from, to, a. rewrite E, fly_get_set.
+  destruct (id =? id') eqn:E2; [|assumption]. apply Z.eqb_eq in E2. subst. rewrite FR in H. discriminate.
 Qed.
 
 Lemma pops_none : forall cfg now r, (forall p f t, abstract cfg now r <> ADelete p f t) -> pops_cache cfg r = None.
@@ -189,23 +160,77 @@ Qed.
 (* ---------------------------------------------------------------------------------------------------------- *)
 (* preservation, event by event *)
 
+(* a step that leaves the flights alone, keeps the clock, pops the dicts of the ports in [popped] and changes the store
+   without disturbing protected answers of the other ports *)
+Lemma J_generic : forall cfg s s' (popped : Z -> bool),
+  0 <= cfg_min_age cfg -> J cfg s ->
+  i_fly s' = i_fly s -> st_now (i_st s') = st_now (i_st s) ->
+  (forall p, popped p = true -> gen_of (i_gens s) p < gen_of (i_gens s') p /\ forall t, cache_get (st_cache (i_st s')) p t = None) ->
+  (forall p, popped p = false -> gen_of (i_gens s') p = gen_of (i_gens s) p
+                                 /\ forall t, cache_get (st_cache (i_st s')) p t = cache_get (st_cache (i_st s)) p t) ->
+  (forall p k t, popped p = false -> t < st_now (i_st s) ->
+                 fresh_val (st_store (i_st s')) p k t = fresh_val (st_store (i_st s)) p k t) ->
+  J cfg s'.
+Proof.
+  intros cfg s s' popped AGE [OK FL] EF EN PT PF SR.
+  assert (PD : forall p, pending_del s' p <-> pending_del s p) by (intro p; unfold pending_del; rewrite EF; reflexivity).
+  split.
+  - intros p t v H. destruct (popped p) eqn:E.
+    + rewrite (proj2 (PT p E)) in H. discriminate.
+    + destruct (PF p E) as [_ C]. rewrite C in H. destruct (OK p t v H) as [T [k [PK R]]]. rewrite EN.
+      split; [assumption|]. exists k. split; [assumption|]. intro NP. rewrite SR; [|assumption|lia].
+      apply R. intro P. apply NP. apply PD. assumption.
+  - rewrite EF. intros id f Hf. specialize (FL id f Hf).
+    destruct f as [p k tss r m n g smp| | |p n v a]; cbn [flight_ok] in *; try exact I; [|rewrite EN; exact FL].
+    rewrite EN. destruct FL as [PK [NW [GL SM]]]. split; [assumption|]. split; [assumption|].
+    destruct (popped p) eqn:E.
+    + destruct (PT p E) as [G _]. split; [lia|]. destruct smp; [|exact I]. intro. lia.
+    + destruct (PF p E) as [G _]. rewrite G. split; [assumption|]. destruct smp as [smp|]; [|exact I].
+      intros E2 NP t v In1 Old. rewrite SR; [|assumption|lia]. apply SM; try assumption.
+      intro P. apply NP. apply PD. assumption.
+Qed.
+
 Lemma J_seq : forall cfg s r, 0 <= cfg_min_age cfg -> J cfg s -> event_ok s (ISeq r) -> J cfg (fst (istep cfg s (ISeq r))).
 Proof.
-  intros cfg s r AGE [OK FL] EV. cbn [istep].
-  pose proof (step_keeps_invariant cfg (i_st s) r AGE OK) as OK'.
+  intros cfg s r AGE Js EV. cbn [istep].
   pose proof (step_abstract cfg (i_st s) r) as SA. unfold step_matches in SA.
-  destruct (step cfg (i_st s) r) as [st' o] eqn:ST. cbn [fst] in *. split; [exact OK'|].
-  cbn [i_fly i_st i_gens]. intros id f Hf. specialize (FL id f Hf).
+  destruct (step cfg (i_st s) r) as [st' o] eqn:ST. cbn [fst].
   destruct (abstract cfg (st_now (i_st s)) r) as [p k from to limit|p k tss|p from to|p v|d|] eqn:A.
   - inversion SA; subst st' o. rewrite (pops_none cfg (st_now (i_st s)) r) by (intros; rewrite A; discriminate).
-    eapply flight_ok_same; [..|exact FL]; reflexivity.
-  - rewrite (pops_none cfg (st_now (i_st s)) r) by (intros; rewrite A; discriminate).
-    inversion SA as [[S1 S2]]. destruct (by_timestamp_keeps_store cfg (i_st s) p k tss) as [K1 K2].
-    eapply flight_ok_same; [..|exact FL]; cbn [i_st i_gens]; try reflexivity; assumption.
-  - inversion SA; subst st' o. rewrite (pops_some cfg _ r p from to A).
-    eapply (flight_ok_pop cfg s _ f p from to); [right| | |exact FL]; reflexivity.
+    apply (J_generic cfg s _ (fun _ => false) AGE Js); cbn [i_fly i_st i_gens]; try reflexivity; try discriminate;
+      intros; split; reflexivity.
+  - (* by timestamps: the cache of p grows; treat through the sequential lemma for the entries of p *)
+    rewrite (pops_none cfg (st_now (i_st s)) r) by (intros; rewrite A; discriminate).
+    inversion SA as [[S1 S2]]. destruct Js as [OK FL].
+    destruct (abstract_by_ts_is_get _ _ _ _ _ _ A) as [q [_ PK]].
+    destruct (by_timestamp_keeps_store cfg (i_st s) p k tss) as [K1 K2].
+    assert (PD : forall p0, pending_del {| i_st := fst (hist_get_samples_by_timestamp EmitPerRequest cfg (i_st s) p k tss);
+                                           i_gens := i_gens s; i_fly := i_fly s |} p0 <-> pending_del s p0)
+      by (intro; unfold pending_del; reflexivity).
+    split.
+    + intros p' t' v H. cbn [i_st] in *. rewrite by_timestamp_unfold in H. cbn [fst st_cache] in H.
+      rewrite K1, K2. apply fold_cache in H. destruct H as [H|[-> [Old ->]]].
+      * destruct (OK p' t' v H) as [T [k' [PK' R]]]. split; [assumption|]. exists k'. split; [assumption|].
+        intro NP. apply R. intro P. apply NP. apply PD. assumption.
+      * split; [lia|]. exists k. split; [assumption|]. intro. reflexivity.
+    + cbn [i_fly]. intros id f Hf. specialize (FL id f Hf).
+      destruct f as [p' k' tss' r' m n g smp| | |p' n v' a]; cbn [flight_ok i_st i_gens] in *; try exact I.
+      * rewrite K1, K2. destruct FL as [PK' [NW [GL SM]]]. split; [assumption|]. split; [assumption|]. split; [assumption|]. destruct smp; [|exact I].
+        intros E NP. apply SM; [assumption|]. intro P. apply NP. apply PD. assumption.
+      * rewrite K2. exact FL.
+  - (* delete, alone: popped (twice), removed *)
+    inversion SA; subst st' o. rewrite (pops_some cfg _ r p from to A).
+    apply (J_generic cfg s _ (fun p' => p' =? p) AGE Js); cbn [i_fly i_st i_gens st_now st_cache st_store]; try reflexivity.
+    + intros p' E. apply Z.eqb_eq in E. subst p'. rewrite !gen_of_bump, Z.eqb_refl. split; [lia|].
+      intro t. rewrite cache_get_pop, Z.eqb_refl. reflexivity.
+    + intros p' E. apply Z.eqb_neq in E. rewrite !gen_of_bump. destruct (p =? p') eqn:E2; [apply Z.eqb_eq in E2; congruence|].
+      split; [reflexivity|]. intro t. rewrite cache_get_pop, E2. reflexivity.
+    + intros p' k t E _. apply Z.eqb_neq in E. apply fresh_val_delete_other. congruence.
   - inversion SA; subst st' o. rewrite (pops_none cfg (st_now (i_st s)) r) by (intros; rewrite A; discriminate).
-    eapply (flight_ok_record cfg s _ f p v AGE); [..|exact FL]; reflexivity.
+    apply (J_generic cfg s _ (fun _ => false) AGE Js); cbn [i_fly i_st i_gens st_now st_cache st_store]; try reflexivity;
+      try discriminate.
+    + intros; split; reflexivity.
+    + intros p' k t _ T. apply fresh_val_record. assumption.
   - (* the clock: no request is suspended *)
     assert (i_fly s = []) as E.
     { destruct r as [p' q'|p' q'|p' v|d']; try exact EV.
@@ -213,83 +238,178 @@ Proof.
           repeat match type of A with context [match ?x with _ => _ end] => destruct x; try discriminate end.
       - cbn [abstract] in A. destruct (port_kind cfg p'), (nonneg_int (q_from q')), (nonneg_int (q_to q')); discriminate.
       - cbn [abstract] in A. destruct v; [destruct (port_on_change cfg p' && (cfg_real_ms cfg <? st_now (i_st s)))|]; discriminate. }
-    rewrite E in Hf. discriminate.
+    inversion SA; subst st' o. rewrite (pops_none cfg (st_now (i_st s)) r) by (intros; rewrite A; discriminate).
+    destruct Js as [OK FL]. split.
+    + intros p' t' v' H. cbn [i_st st_cache st_now st_store] in *. destruct (OK p' t' v' H) as [T [k [PK R]]].
+      split; [lia|]. exists k. split; [assumption|]. intro NP. apply R. intros [id [f [t [a P]]]]. rewrite E in P. discriminate.
+    + cbn [i_fly]. intros id f Hf. rewrite E in Hf. discriminate.
   - cbn [fst] in SA. subst st'. rewrite (pops_none cfg (st_now (i_st s)) r) by (intros; rewrite A; discriminate).
-    eapply flight_ok_same; [..|exact FL]; reflexivity.
+    apply (J_generic cfg s _ (fun _ => false) AGE Js); cbn [i_fly i_st i_gens]; try reflexivity; try discriminate;
+      intros; split; reflexivity.
+Qed.
+
+(* adding a flight under a fresh identifier, nothing else *)
+Lemma J_add_flight : forall cfg s id f,
+  J cfg s -> fly_get (i_fly s) id = None -> flight_ok cfg s f ->
+  (match f with FByTs _ _ _ _ _ _ _ (Some _) => False | _ => True end) ->
+  J cfg (with_fly s (fly_set (i_fly s) id f)).
+Proof.
+  intros cfg s id f [OK FL] FR FO SH.
+  assert (PM : forall p, pending_del s p -> pending_del (with_fly s (fly_set (i_fly s) id f)) p)
+    by (intros p P; eapply pending_set_fresh; [exact FR|reflexivity|exact P]).
+  split.
+  - intros p t v H. cbn [with_fly i_st] in *. destruct (OK p t v H) as [T [k [PK R]]]. split; [assumption|].
+    exists k. split; [assumption|]. intro NP. apply R. intro P. apply NP. apply PM. assumption.
+  - cbn [with_fly i_fly]. intros id' f' Hf. rewrite fly_get_set in Hf. destruct (id =? id').
+    + inversion Hf. subst f'. destruct f as [p k tss r m n g smp| | |p n v a]; cbn [flight_ok with_fly i_st i_gens] in *; try exact I.
+      * destruct FO as [PK [NW [GL _]]]. split; [assumption|]. split; [assumption|]. split; [assumption|]. destruct smp; [contradiction|exact I].
+      * exact FO.
+    + pose proof (FL _ _ Hf) as H.
+      destruct f' as [p k tss r m n g smp| | |p n v a]; cbn [flight_ok with_fly i_st i_gens] in *; try exact I; [|exact H].
+      destruct H as [PK [NW [GL SM]]]. split; [assumption|]. split; [assumption|]. split; [assumption|]. destruct smp; [|exact I].
+      intros E NP. apply SM; [assumption|]. intro P. apply NP. apply PM. assumption.
 Qed.
 
 Lemma J_start : forall cfg s id r, 0 <= cfg_min_age cfg -> J cfg s -> event_ok s (IStart id r) -> J cfg (fst (istep cfg s (IStart id r))).
 Proof.
-  intros cfg s id r AGE [OK FL] EV. cbn [istep]. unfold istart. destruct r as [p q|p q|p v|d].
+  intros cfg s id r AGE Js EV. cbn [istep]. unfold istart. destruct r as [p q|p q|p v|d].
   - (* GET *)
+    cbn [event_ok] in EV.
     destruct (parse_get cfg (st_now (i_st s)) p q) as [e|k from to limit|k tss] eqn:PG; cbn [fst].
-    + split; assumption.
-    + split; [exact OK|]. cbn [with_fly i_fly]. intros id' f Hf. rewrite fly_get_set in Hf.
-      destruct (id =? id'); [inversion Hf; exact I|]. eapply flight_ok_same; [..|exact (FL _ _ Hf)]; reflexivity.
-    + destruct (lookup_pass (st_cache (i_st s)) p tss) as [results missed]. destruct missed as [|m0 ms]; cbn [fst].
-      * split; assumption.
-      * split; [exact OK|]. cbn [with_fly i_fly]. intros id' f Hf. rewrite fly_get_set in Hf.
-        destruct (id =? id').
-        -- inversion Hf. cbn [flight_ok with_fly i_st i_gens]. repeat split; try lia.
-           eapply parse_get_byts_kind. exact PG.
-        -- eapply flight_ok_same; [..|exact (FL _ _ Hf)]; reflexivity.
-  - (* DELETE: the port's dict is popped *)
-    destruct (parse_delete cfg p q) as [e|from to] eqn:PD; cbn [fst]; [split; assumption|].
+    + assumption.
+    + apply J_add_flight; try assumption; exact I.
+    + destruct (lookup_pass (st_cache (i_st s)) p tss) as [results missed]. destruct missed as [|m0 ms]; cbn [fst]; [assumption|].
+      apply J_add_flight; try assumption; [|exact I]. cbn [flight_ok]. repeat split; try lia.
+      eapply parse_get_byts_kind. exact PG.
+  - (* DELETE: the port's dict is popped, the port has a DELETE in flight from now on *)
+    cbn [event_ok] in EV. destruct (parse_delete cfg p q) as [e|from to] eqn:PD; cbn [fst]; [assumption|].
+    destruct Js as [OK FL].
+    set (s' := {| i_st := {| st_store := st_store (i_st s); st_cache := cache_pop (st_cache (i_st s)) p; st_now := st_now (i_st s) |};
+                  i_gens := gen_bump (i_gens s) p; i_fly := fly_set (i_fly s) id (FDelete p from to false) |}).
+    assert (PM : forall p0, pending_del s p0 -> pending_del s' p0)
+      by (intros p0 P; eapply pending_set_fresh; [exact EV|reflexivity|exact P]).
     split.
-    + cbn [i_st]. intros p' t' v H. cbn [st_cache st_now st_store] in *. rewrite cache_get_pop in H.
-      destruct (p =? p'); [discriminate|]. apply OK. assumption.
-    + cbn [i_fly]. intros id' f Hf. rewrite fly_get_set in Hf. destruct (id =? id'); [inversion Hf; exact I|].
-      eapply (flight_ok_pop cfg s _ f p from to); [left| | |exact (FL _ _ Hf)]; reflexivity.
+    + intros p' t' v H. unfold s' in *. cbn [i_st st_cache st_now st_store] in *. rewrite cache_get_pop in H.
+      destruct (p =? p'); [discriminate|]. destruct (OK p' t' v H) as [T [k [PK R]]]. split; [assumption|].
+      exists k. split; [assumption|]. intro NP. apply R. intro P. apply NP. apply PM. assumption.
+    + unfold s' in *. cbn [i_fly]. intros id' f Hf. rewrite fly_get_set in Hf. destruct (id =? id'); [inversion Hf; exact I|].
+      pose proof (FL _ _ Hf) as H.
+      destruct f as [p' k tss r m n g smp| | |p' n v a]; cbn [flight_ok i_st i_gens st_now st_store] in *; try exact I; [|exact H].
+      destruct H as [PK [NW [GL SM]]]. split; [assumption|]. split; [assumption|]. rewrite gen_of_bump.
+      destruct (p =? p') eqn:E.
+      * split; [apply Z.eqb_eq in E; subst; lia|]. destruct smp; [|exact I]. intro. apply Z.eqb_eq in E. subst. lia.
+      * split; [assumption|]. destruct smp; [|exact I]. intros E2 NP. apply SM; [assumption|]. intro P. apply NP. apply PM. assumption.
   - (* value change *)
-    destruct (negb (cfg_real_ms cfg <? st_now (i_st s))); [split; assumption|].
-    destruct (negb (port_on_change cfg p)); [split; assumption|].
-    destruct v as [v|]; [|split; assumption]. cbn [fst]. split; [exact OK|].
-    cbn [with_fly i_fly]. intros id' f Hf. rewrite fly_get_set in Hf.
-    destruct (id =? id'); [inversion Hf; reflexivity|]. eapply flight_ok_same; [..|exact (FL _ _ Hf)]; reflexivity.
+    cbn [event_ok] in EV.
+    destruct (negb (cfg_real_ms cfg <? st_now (i_st s))); [assumption|].
+    destruct (negb (port_on_change cfg p)); [assumption|].
+    destruct v as [v|]; [|assumption]. cbn [fst]. apply J_add_flight; try assumption; [reflexivity|exact I].
   - (* clock *)
-    cbn [event_ok] in EV. cbn [fst]. split.
-    + cbn [with_st i_st]. intros p' t' v' H. cbn [st_cache st_now st_store] in *. destruct (OK p' t' v' H) as [T R].
-      split; [lia|assumption].
+    cbn [event_ok] in EV. cbn [fst]. destruct Js as [OK FL]. split.
+    + intros p' t' v' H. cbn [with_st i_st st_cache st_now st_store] in *. destruct (OK p' t' v' H) as [T [k [PK R]]].
+      split; [lia|]. exists k. split; [assumption|]. intro NP. apply R. intros [id' [f [t [a P]]]]. rewrite EV in P. discriminate.
     + cbn [with_st i_fly]. intros id' f Hf. rewrite EV in Hf. discriminate.
 Qed.
 
-Lemma J_driver : forall cfg s id, 0 <= cfg_min_age cfg -> J cfg s -> event_ok s (IDriver id) -> J cfg (fst (istep cfg s (IDriver id))).
+(* replacing the flight of [id] by a flight of the same kind and port: the DELETEs in flight are the same *)
+Lemma pending_replace : forall s s' id f f',
+  fly_get (i_fly s) id = Some f -> i_fly s' = fly_set (i_fly s) id f' ->
+  (forall p, (exists a b c, f = FDelete p a b c) <-> (exists a b c, f' = FDelete p a b c)) ->
+  forall p, pending_del s' p <-> pending_del s p.
 Proof.
-  intros cfg s id AGE [OK FL] EV. cbn [istep]. unfold idriver. cbn [event_ok] in EV.
+  intros s s' id f f' F E K p. unfold pending_del. rewrite E. split.
+  - intros [id' [a [b [c H]]]]. rewrite fly_get_set in H. destruct (id =? id') eqn:E2.
+    + inversion H. subst f'. destruct (proj2 (K p)) as [a' [b' [c' ->]]]; [eauto|]. exists id, a', b', c'. assumption.
+    + exists id', a, b, c. assumption.
+  - intros [id' [a [b [c H]]]]. destruct (id =? id') eqn:E2.
+    + apply Z.eqb_eq in E2. subst id'. rewrite F in H. inversion H. subst f.
+      destruct (proj1 (K p)) as [a' [b' [c' ->]]]; [eauto|]. exists id, a', b', c'. rewrite fly_get_set, Z.eqb_refl. reflexivity.
+    + exists id', a, b, c. rewrite fly_get_set, E2. assumption.
+Qed.
+
+Lemma J_driver : forall cfg s id, 0 <= cfg_min_age cfg -> J cfg s -> J cfg (fst (istep cfg s (IDriver id))).
+Proof.
+  intros cfg s id AGE [OK FL]. cbn [istep]. unfold idriver.
   destruct (fly_get (i_fly s) id) as [f|] eqn:F; [|split; assumption].
   pose proof (FL id f F) as Fok.
   destruct f as [p k tss results missed now gen [smp|]|p k from to limit [a|]|p from to [|]|p now v [|]];
     try (split; assumption); cbn [fst].
   - (* by timestamps: the driver answers from the store as it is now *)
-    split; [exact OK|]. cbn [with_fly i_fly]. intros id' f' Hf. rewrite fly_get_set in Hf. destruct (id =? id').
-    + inversion Hf. cbn [flight_ok with_fly i_st i_gens] in *. destruct Fok as [PK [NW [GL _]]]. repeat split; try assumption.
-      intros G t v In1 Old. rewrite samples_are_fresh, combine_map_self in In1. apply in_map_iff in In1.
-      destruct In1 as [x [E _]]. inversion E. reflexivity.
-    + eapply flight_ok_same; [..|exact (FL _ _ Hf)]; reflexivity.
+    set (f' := FByTs p k tss results missed now gen (Some (base_get_samples_by_timestamp (st_store (i_st s)) p missed))).
+    assert (PD := pending_replace s (with_fly s (fly_set (i_fly s) id f')) id _ f' F eq_refl).
+    assert (PD' : forall p0, pending_del (with_fly s (fly_set (i_fly s) id f')) p0 <-> pending_del s p0).
+    { apply PD. intro p0. split; intros [a [b [c H]]]; discriminate. }
+    split.
+    + intros p' t' v H. cbn [with_fly i_st] in *. destruct (OK p' t' v H) as [T [k' [PK R]]]. split; [assumption|].
+      exists k'. split; [assumption|]. intro NP. apply R. intro P. apply NP. apply PD'. assumption.
+    + cbn [with_fly i_fly]. intros id' f0 Hf. rewrite fly_get_set in Hf. destruct (id =? id').
+      * inversion Hf. subst f0. cbn [f' flight_ok with_fly i_st i_gens] in *. destruct Fok as [PK [NW [GL _]]].
+        repeat split; try assumption. intros G NP t v In1 Old. rewrite samples_are_fresh, combine_map_self in In1.
+        apply in_map_iff in In1. destruct In1 as [x [E _]]. inversion E. reflexivity.
+      * pose proof (FL _ _ Hf) as H0.
+        destruct f0 as [p' k' tss' r' m n g smp| | |p' n v a]; cbn [flight_ok with_fly i_st i_gens] in *; try exact I; [|exact H0].
+        destruct H0 as [PK [NW [GL SM]]]. split; [assumption|]. split; [assumption|]. split; [assumption|]. destruct smp; [|exact I].
+        intros E NP. apply SM; [assumption|]. intro P. apply NP. apply PD'. assumption.
   - (* range: no state change *)
-    split; [exact OK|]. cbn [with_fly i_fly]. intros id' f' Hf. rewrite fly_get_set in Hf.
-    destruct (id =? id'); [inversion Hf; exact I|]. eapply flight_ok_same; [..|exact (FL _ _ Hf)]; reflexivity.
-  - (* removal: the port is clean *)
-    destruct EV as [C1 C2]. unfold base_remove_samples. rewrite drv_remove_is_spec. split.
-    + cbn [i_st]. intros p' t' v H. cbn [st_cache st_now st_store] in *. destruct (OK p' t' v H) as [T [k [PK ->]]].
-      split; [assumption|]. exists k. split; [assumption|]. destruct (Z.eq_dec p p') as [->|N].
-      * rewrite C1 in H. discriminate.
-      * rewrite fresh_val_delete_other by assumption. reflexivity.
-    + cbn [i_fly]. intros id' f' Hf. rewrite fly_get_set in Hf. destruct (id =? id'); [inversion Hf; exact I|].
-      pose proof (FL _ _ Hf) as H. destruct f' as [p' k tss r m n g smp| | |p' n v' a]; cbn [flight_ok i_st i_gens st_store st_now] in *;
-        try exact I; [|exact H].
-      destruct H as [PK [NW [GL SM]]]. repeat split; try assumption. destruct smp as [smp|]; [|exact I].
-      intros G t w In1 Old. destruct (Z.eq_dec p p') as [->|N].
-      * exfalso. eapply C2; [exact Hf|exact G].
-      * rewrite fresh_val_delete_other by assumption. apply SM; assumption.
+    set (f' := FSlice p k from to limit (Some (base_get_samples_slice (st_store (i_st s)) p from (Some to) (Some limit) false))).
+    assert (PD' : forall p0, pending_del (with_fly s (fly_set (i_fly s) id f')) p0 <-> pending_del s p0).
+    { apply (pending_replace s (with_fly s (fly_set (i_fly s) id f')) id _ f' F eq_refl). intro p0. split; intros [a [b [c H]]]; discriminate. }
+    split.
+    + intros p' t' v H. cbn [with_fly i_st] in *. destruct (OK p' t' v H) as [T [k' [PK R]]]. split; [assumption|].
+      exists k'. split; [assumption|]. intro NP. apply R. intro P. apply NP. apply PD'. assumption.
+    + cbn [with_fly i_fly]. intros id' f0 Hf. rewrite fly_get_set in Hf. destruct (id =? id'); [inversion Hf; exact I|].
+      pose proof (FL _ _ Hf) as H0.
+      destruct f0 as [p' k' tss' r' m n g smp| | |p' n v a]; cbn [flight_ok with_fly i_st i_gens] in *; try exact I; [|exact H0].
+      destruct H0 as [PK [NW [GL SM]]]. split; [assumption|]. split; [assumption|]. split; [assumption|]. destruct smp; [|exact I].
+      intros E NP. apply SM; [assumption|]. intro P. apply NP. apply PD'. assumption.
+  - (* removal: port p has this DELETE in flight, the other ports do not see the difference *)
+    unfold base_remove_samples. rewrite drv_remove_is_spec.
+    set (s' := {| i_st := {| st_store := delete_spec (st_store (i_st s)) p from to; st_cache := st_cache (i_st s); st_now := st_now (i_st s) |};
+                  i_gens := i_gens s; i_fly := fly_set (i_fly s) id (FDelete p from to true) |}).
+    assert (PD' : forall p0, pending_del s' p0 <-> pending_del s p0).
+    { apply (pending_replace s s' id _ (FDelete p from to true) F eq_refl). intro p0.
+      split; intros [a [b [c H]]]; inversion H; eauto. }
+    assert (PP : pending_del s' p) by (exists id, from, to, true; unfold s'; cbn [i_fly]; rewrite fly_get_set, Z.eqb_refl; reflexivity).
+    split.
+    + intros p' t' v H. unfold s' in *. cbn [i_st st_cache st_now st_store] in *. destruct (OK p' t' v H) as [T [k [PK R]]].
+      split; [assumption|]. exists k. split; [assumption|]. intro NP. destruct (Z.eq_dec p p') as [->|N]; [contradiction|].
+      rewrite fresh_val_delete_other by assumption. apply R. intro P. apply NP. apply PD'. assumption.
+    + unfold s' in *. cbn [i_fly]. intros id' f0 Hf. rewrite fly_get_set in Hf. destruct (id =? id'); [inversion Hf; exact I|].
+      pose proof (FL _ _ Hf) as H0.
+      destruct f0 as [p' k' tss' r' m n g smp| | |p' n v a]; cbn [flight_ok i_st i_gens st_store st_now] in *; try exact I; [|exact H0].
+      destruct H0 as [PK [NW [GL SM]]]. split; [assumption|]. split; [assumption|]. split; [assumption|]. destruct smp; [|exact I].
+      intros E NP t w In1 Old. destruct (Z.eq_dec p p') as [->|N]; [contradiction|].
+      rewrite fresh_val_delete_other by assumption. apply SM; try assumption. intro P. apply NP. apply PD'. assumption.
   - (* insert of a value change stamped with the current time *)
-    cbn [flight_ok] in Fok. subst now. unfold base_save_sample, drv_insert. split.
-    + cbn [i_st]. intros p' t' v' H. cbn [st_cache st_now st_store] in *. destruct (OK p' t' v' H) as [T [k [PK ->]]].
-      split; [assumption|]. exists k. split; [assumption|].
-      change (st_store (i_st s) ++ [(p, st_now (i_st s), v)]) with (record_spec (st_store (i_st s)) p (st_now (i_st s)) v).
-      rewrite fresh_val_record by lia. reflexivity.
-    + cbn [i_fly]. intros id' f' Hf. rewrite fly_get_set in Hf. destruct (id =? id'); [inversion Hf; exact I|].
-      eapply (flight_ok_record cfg s _ f' p v AGE); [..|exact (FL _ _ Hf)]; reflexivity.
+    cbn [flight_ok] in Fok. subst now. unfold base_save_sample, drv_insert.
+    change (st_store (i_st s) ++ [(p, st_now (i_st s), v)]) with (record_spec (st_store (i_st s)) p (st_now (i_st s)) v).
+    set (s' := {| i_st := {| st_store := record_spec (st_store (i_st s)) p (st_now (i_st s)) v; st_cache := st_cache (i_st s);
+                             st_now := st_now (i_st s) |};
+                  i_gens := i_gens s; i_fly := fly_set (i_fly s) id (FSave p (st_now (i_st s)) v true) |}).
+    assert (PD' : forall p0, pending_del s' p0 <-> pending_del s p0).
+    { apply (pending_replace s s' id _ (FSave p (st_now (i_st s)) v true) F eq_refl). intro p0.
+      split; intros [a [b [c H]]]; discriminate. }
+    split.
+    + intros p' t' v' H. unfold s' in *. cbn [i_st st_cache st_now st_store] in *. destruct (OK p' t' v' H) as [T [k [PK R]]].
+      split; [assumption|]. exists k. split; [assumption|]. intro NP. rewrite fresh_val_record by lia.
+      apply R. intro P. apply NP. apply PD'. assumption.
+    + unfold s' in *. cbn [i_fly]. intros id' f0 Hf. rewrite fly_get_set in Hf. destruct (id =? id'); [inversion Hf; exact I|].
+      pose proof (FL _ _ Hf) as H0.
+      destruct f0 as [p' k' tss' r' m n g smp| | |p' n v' a]; cbn [flight_ok i_st i_gens st_store st_now] in *; try exact I; [|exact H0].
+      destruct H0 as [PK [NW [GL SM]]]. split; [assumption|]. split; [assumption|]. split; [assumption|]. destruct smp; [|exact I].
+      intros E NP t w In1 Old. rewrite fresh_val_record by lia. apply SM; try assumption. intro P. apply NP. apply PD'. assumption.
+Qed.
+
+(* dropping the flight of [id]: the DELETEs in flight are the same, except possibly the dropped one *)
+Lemma pending_drop : forall s s' id f,
+  fly_get (i_fly s) id = Some f -> i_fly s' = fly_drop (i_fly s) id ->
+  forall p, (forall a b c, f <> FDelete p a b c) -> (pending_del s' p <-> pending_del s p).
+Proof.
+  intros s s' id f F E p N. unfold pending_del. rewrite E. split.
+  - intros [id' [a [b [c H]]]]. rewrite fly_get_drop in H. destruct (id =? id'); [discriminate|]. eauto.
+  - intros [id' [a [b [c H]]]]. destruct (id =? id') eqn:E2.
+    + apply Z.eqb_eq in E2. subst. rewrite F in H. inversion H. exfalso. eapply N. eassumption.
+    + exists id', a, b, c. rewrite fly_get_drop, E2. assumption.
 Qed.
 
 Lemma J_finish : forall cfg s id, 0 <= cfg_min_age cfg -> J cfg s -> J cfg (fst (istep cfg s (IFinish id))).
@@ -297,23 +417,68 @@ Proof.
   intros cfg s id AGE [OK FL]. cbn [istep]. unfold ifinish.
   destruct (fly_get (i_fly s) id) as [f|] eqn:F; [|split; assumption].
   pose proof (FL id f F) as Fok.
-  assert (DROP : forall s', st_store (i_st s') = st_store (i_st s) -> st_now (i_st s') = st_now (i_st s) ->
+  (* finishing anything but a DELETE: flights other than [id] stay as they are *)
+  assert (KEEP : forall s', st_store (i_st s') = st_store (i_st s) -> st_now (i_st s') = st_now (i_st s) ->
                             i_gens s' = i_gens s -> i_fly s' = fly_drop (i_fly s) id ->
-                            forall id' f', fly_get (i_fly s') id' = Some f' -> flight_ok cfg s' f').
-  { intros s' E1 E2 E3 E4 id' f' Hf. rewrite E4, fly_get_drop in Hf. destruct (id =? id'); [discriminate|].
-    eapply flight_ok_same; [..|exact (FL _ _ Hf)]; assumption. }
+                            (forall p a b c, f <> FDelete p a b c) ->
+                            (forall p, pending_del s' p <-> pending_del s p)
+                            /\ forall id' f', fly_get (i_fly s') id' = Some f' -> flight_ok cfg s' f').
+  { intros s' E1 E2 E3 E4 ND.
+    assert (PD' : forall p, pending_del s' p <-> pending_del s p) by (intro p; apply (pending_drop s s' id f F E4 p (ND p))).
+    split; [exact PD'|]. intros id' f' Hf. rewrite E4, fly_get_drop in Hf. destruct (id =? id'); [discriminate|].
+    pose proof (FL _ _ Hf) as H0.
+    destruct f' as [p' k' tss' r' m n g smp| | |p' n v a]; cbn [flight_ok] in *; try exact I; [|rewrite E2; exact H0].
+    rewrite E1, E2, E3. destruct H0 as [PK [NW [GL SM]]]. split; [assumption|]. split; [assumption|]. split; [assumption|]. destruct smp; [|exact I].
+    intros E NP. apply SM; [assumption|]. intro P. apply NP. apply PD'. assumption. }
   destruct f as [p k tss results missed now gen [smp|]|p k from to limit [a|]|p from to [|]|p now v [|]];
     try (split; assumption); cbn [fst].
   - (* by timestamps: cache writes, only into the live dict *)
-    unfold byts_finish. cbn [fst]. split; [|apply DROP; reflexivity].
-    cbn [i_st]. intros p' t' v H. cbn [st_cache st_now st_store] in *.
+    unfold byts_finish. cbn [fst].
+    match goal with |- J cfg ?S => destruct (KEEP S) as [PD' K2]; try reflexivity; try (intros; discriminate) end.
+    split; [|exact K2].
+    intros p' t' v H. cbn [i_st st_cache st_now st_store] in *.
     cbn [flight_ok] in Fok. destruct Fok as [PK [NW [GL SM]]].
-    destruct (gen_of (i_gens s) p =? gen) eqn:G; [|apply OK; assumption].
-    apply Z.eqb_eq in G. apply fold_cache_pairs in H. destruct H as [H|[-> [In1 Old]]]; [apply OK; assumption|].
-    split; [lia|]. exists k. split; [assumption|]. apply SM; [symmetry; assumption|assumption|assumption].
-  - split; [exact OK|]. apply DROP; reflexivity.
-  - split; [exact OK|]. apply DROP; reflexivity.
-  - split; [exact OK|]. apply DROP; reflexivity.
+    assert (OLD : forall p0 t0 v0, cache_get (st_cache (i_st s)) p0 t0 = Some v0 ->
+              t0 + cfg_min_age cfg < st_now (i_st s) /\ exists k0, port_kind cfg p0 = Some k0 /\
+              (~ pending_del {| i_st := {| st_store := st_store (i_st s);
+                                           st_cache := if gen_of (i_gens s) p =? gen
+                                                       then fold_left (fun c tv => if now - fst tv >? cfg_min_age cfg then cache_set c p (fst tv) (snd tv) else c)
+                                                                      (combine missed (map (adapt_opt k) smp)) (st_cache (i_st s))
+                                                       else st_cache (i_st s);
+                                           st_now := st_now (i_st s) |};
+                                 i_gens := i_gens s; i_fly := fly_drop (i_fly s) id |} p0 -> v0 = fresh_val (st_store (i_st s)) p0 k0 t0)).
+    { intros p0 t0 v0 H0. destruct (OK p0 t0 v0 H0) as [T [k0 [PK0 R]]]. split; [assumption|]. exists k0. split; [assumption|].
+      intro NP. apply R. intro P. apply NP. apply PD'. assumption. }
+    destruct (gen_of (i_gens s) p =? gen) eqn:G; [|apply OLD; assumption].
+    apply Z.eqb_eq in G. apply fold_cache_pairs in H. destruct H as [H|[-> [In1 Old]]]; [apply OLD; assumption|].
+    split; [lia|]. exists k. split; [assumption|]. intro NP. apply SM; try assumption; [symmetry; assumption|].
+    intro P. apply NP. apply PD'. assumption.
+  - (* range *)
+    match goal with |- J cfg ?S => destruct (KEEP S) as [PD' K2]; try reflexivity; try (intros; discriminate) end.
+    split; [|exact K2]. intros p' t' v H. cbn [with_fly i_st] in *. destruct (OK p' t' v H) as [T [k0 [PK0 R]]].
+    split; [assumption|]. exists k0. split; [assumption|]. intro NP. apply R. intro P. apply NP. apply PD'. assumption.
+  - (* DELETE resumes: second invalidation *)
+    set (s' := {| i_st := {| st_store := st_store (i_st s); st_cache := cache_pop (st_cache (i_st s)) p; st_now := st_now (i_st s) |};
+                  i_gens := gen_bump (i_gens s) p; i_fly := fly_drop (i_fly s) id |}).
+    assert (PD' : forall p0, p0 <> p -> (pending_del s' p0 <-> pending_del s p0)).
+    { intros p0 N. apply (pending_drop s s' id _ F eq_refl). intros a b c E. inversion E. congruence. }
+    split.
+    + intros p' t' v H. unfold s' in *. cbn [i_st st_cache st_now st_store] in *. rewrite cache_get_pop in H.
+      destruct (p =? p') eqn:E; [discriminate|]. apply Z.eqb_neq in E.
+      destruct (OK p' t' v H) as [T [k0 [PK0 R]]]. split; [assumption|]. exists k0. split; [assumption|].
+      intro NP. apply R. intro P. apply NP. apply PD'; [congruence|assumption].
+    + unfold s' in *. cbn [i_fly]. intros id' f0 Hf. rewrite fly_get_drop in Hf. destruct (id =? id'); [discriminate|].
+      pose proof (FL _ _ Hf) as H0.
+      destruct f0 as [p' k' tss' r' m n g smp| | |p' n v a]; cbn [flight_ok i_st i_gens st_store st_now] in *; try exact I; [|exact H0].
+      destruct H0 as [PK [NW [GL SM]]]. split; [assumption|]. split; [assumption|]. rewrite gen_of_bump.
+      destruct (p =? p') eqn:E.
+      * apply Z.eqb_eq in E. subst p'. split; [lia|]. destruct smp; [|exact I]. intro. lia.
+      * apply Z.eqb_neq in E. split; [assumption|]. destruct smp; [|exact I]. intros E2 NP. apply SM; [assumption|].
+        intro P. apply NP. apply PD'; [congruence|assumption].
+  - (* value change *)
+    match goal with |- J cfg ?S => destruct (KEEP S) as [PD' K2]; try reflexivity; try (intros; discriminate) end.
+    split; [|exact K2]. intros p' t' v' H. cbn [with_fly i_st] in *. destruct (OK p' t' v' H) as [T [k0 [PK0 R]]].
+    split; [assumption|]. exists k0. split; [assumption|]. intro NP. apply R. intro P. apply NP. apply PD'. assumption.
 Qed.
 
 Theorem irun_keeps_invariant : forall cfg es s,
@@ -328,66 +493,43 @@ Proof.
 Qed.
 
 Lemma J_initial : forall cfg st, st_cache st = [] -> J cfg (istate_of st).
-Proof. intros cfg st E. split; [apply empty_cache_ok; exact E|]. intros id f H. discriminate. Qed.
-
-(* the removal directly after the invalidation finds the port clean *)
-Lemma start_then_driver_clean : forall cfg s id p q from to,
-  J cfg s -> parse_delete cfg p q = PDOk from to ->
-  event_ok (fst (istep cfg s (IStart id (ApiDelete p q)))) (IDriver id).
 Proof.
-  intros cfg s id p q from to [OK FL] PD. cbn [istep]. unfold istart. rewrite PD. cbn [fst event_ok i_fly].
-  rewrite fly_get_set, Z.eqb_refl. split.
-  - intro t. cbn [i_st st_cache]. rewrite cache_get_pop, Z.eqb_refl. reflexivity.
-  - cbn [i_fly i_gens]. intros id' k tss r m n g smp Hf. rewrite fly_get_set in Hf.
-    destruct (id =? id'); [discriminate|]. rewrite gen_of_bump, Z.eqb_refl.
-    pose proof (FL _ _ Hf) as H. cbn [flight_ok] in H. lia.
+  intros cfg st E. split.
+  - intros p t v H. cbn [istate_of i_st] in H. rewrite E in H. discriminate.
+  - intros id f H. discriminate.
 Qed.
 
-(* after any admissible schedule, a by-timestamp query that runs alone answers exactly the specification *)
+(* after any admissible schedule, a by-timestamp query that runs alone, on a port that has no DELETE in flight, answers
+   exactly the specification *)
 Theorem by_timestamp_after_overlaps : forall cfg st0 es p q k tss,
   0 <= cfg_min_age cfg -> st_cache st0 = [] -> sched_ok cfg (istate_of st0) es ->
   let s := fst (irun cfg (istate_of st0) es) in
+  ~ pending_del s p ->
   abstract cfg (st_now (i_st s)) (ApiGet p q) = AByTimestamp p k tss ->
   snd (istep cfg s (ISeq (ApiGet p q))) = REntries (by_timestamp_spec (st_store (i_st s)) p k tss).
 Proof.
-  intros cfg st0 es p q k tss AGE E SO s A.
+  intros cfg st0 es p q k tss AGE E SO s NP A.
   assert (Js : J cfg s) by (apply irun_keeps_invariant; [assumption|apply J_initial; assumption|assumption]).
   destruct Js as [OK _]. cbn [istep].
   pose proof (step_abstract cfg (i_st s) (ApiGet p q)) as SA. unfold step_matches in SA. rewrite A in SA.
   destruct (step cfg (i_st s) (ApiGet p q)) as [st' o]. cbn [snd]. inversion SA.
-  destruct (abstract_get_by_ts _ _ _ _ _ _ _ A) as [_ PK]. rewrite by_timestamp_correct by assumption. reflexivity.
+  destruct (abstract_get_by_ts _ _ _ _ _ _ _ A) as [_ PK]. rewrite by_timestamp_correct_port; [reflexivity|].
+  intros t v H. destruct (OK p t v H) as [_ [k' [PK' R]]]. rewrite PK in PK'. inversion PK'. subst k'. apply R. assumption.
 Qed.
+
+(* in particular when nothing is in flight *)
+Lemma nothing_in_flight : forall s p, i_fly s = [] -> ~ pending_del s p.
+Proof. intros s p E [id [a [b [c H]]]]. rewrite E in H. discriminate. Qed.
 
 (* ---------------------------------------------------------------------------------------------------------- *)
 (* the premise, executable: the harness evaluates it on every schedule it runs *)
 
-Lemma cache_get_none : forall c p, forallb (fun e => negb (fst (fst e) =? p)) c = true -> forall t, cache_get c p t = None.
-Proof.
-  induction c as [|[[p0 t0] v0] r IH]; intros p H t; [reflexivity|]. cbn [forallb fst] in H. apply andb_prop in H.
-  destruct H as [H1 H2]. cbn [cache_get]. destruct (p0 =? p); [discriminate|]. cbn [andb]. apply IH. assumption.
-Qed.
-
-Lemma fly_get_In : forall l id f, fly_get l id = Some f -> In (id, f) l.
-Proof.
-  induction l as [|[i g] r IH]; intros id f H; [discriminate|]. cbn [fly_get] in H. destruct (i =? id) eqn:E.
-  - apply Z.eqb_eq in E. inversion H. subst. left. reflexivity.
-  - right. apply IH. assumption.
-Qed.
-
-Lemma port_cleanb_sound : forall s p, port_cleanb s p = true -> port_clean s p.
-Proof.
-  intros s p H. apply andb_prop in H. destruct H as [H1 H2]. split; [apply cache_get_none; assumption|].
-  intros id k tss r m n g smp Hf G. apply fly_get_In in Hf. rewrite forallb_forall in H2. specialize (H2 _ Hf).
-  cbn [snd] in H2. subst g. rewrite !Z.eqb_refl in H2. discriminate.
-Qed.
-
 Lemma event_okb_sound : forall s e, event_okb s e = true -> event_ok s e.
 Proof.
-  intros s e H. destruct e as [r|id r|id|id]; cbn [event_ok event_okb] in *.
+  intros s e H. destruct e as [r|id r|id|id]; cbn [event_ok event_okb] in *; try exact I.
   - destruct r; try exact I. destruct (i_fly s); [reflexivity|discriminate].
-  - destruct r; try exact I. destruct (i_fly s); [reflexivity|discriminate].
-  - destruct (fly_get (i_fly s) id) as [[| |p from to [|]|]|]; try exact I. apply port_cleanb_sound. assumption.
-  - exact I.
+  - destruct r; try (destruct (fly_get (i_fly s) id); [discriminate|reflexivity]).
+    destruct (i_fly s); [reflexivity|discriminate].
 Qed.
 
 Theorem sched_okb_sound : forall cfg es s, sched_okb cfg s es = true -> sched_ok cfg s es.
